@@ -68,6 +68,8 @@ def layout(seq, rng, star=None):
 def fcase(text, kind, analyses=False, nontrivial=True):
     h = hex6(text)
     lines = ["parse " + h if text else "parse"]
+    if text:
+        lines.append("parse " + h + " @silent")       # the same file with the parser's silent=True
     if analyses and text:
         lines += ["parseq %s %s" % (h, q) for q in QS]
         k = sum(map(ord, text)) % len(QS_MORE)
